@@ -121,8 +121,8 @@ def wvariance(xs, ws=None):
 
 
 def spread(xs):
-    xs = frs(xs)
-    return max(xs) - min(xs)
+    """max - min, exact (comparisons of floats / Fractions are exact; only the difference needs rationals)"""
+    return fr(max(xs)) - fr(min(xs))
 
 
 def support_index(ws, tol=0):
